@@ -19,7 +19,7 @@ import numpy as np
 
 from .common import plist, frac
 
-THEOREMS_FULL = [
+THEOREMS = [
     'Pyiga.Props.C07.nurbs_jet', 'Pyiga.Props.C07.nurbs_jet_unique', 'Pyiga.Props.C07.hess_packing',
     'Pyiga.Props.C07.jet_mul_inv', 'Pyiga.Props.C07.jet_div_mul_cancel',
     'Pyiga.Props.C07.routes_agree', 'Pyiga.Props.C07.window_eq_dense', 'Pyiga.Props.C07.axis_map_is_reversal',
@@ -30,11 +30,9 @@ THEOREMS_FULL = [
     'Pyiga.Props.C07.outer_nurbs_law', 'Pyiga.Props.C07.as_nurbs_same_map', 'Pyiga.Props.C07.getitem_component',
     'Pyiga.Props.C07.boundary_restriction', 'Pyiga.Props.C07.bdspec_table', 'Pyiga.Props.C07.boundary_function_args',
     'Pyiga.Props.C07.arc_on_circle', 'Pyiga.Props.C07.arc_segment_on_circle', 'Pyiga.Props.C07.arc_endpoints',
-    'Pyiga.Props.C07.quarter_annulus_radius',
+    'Pyiga.Props.C07.quarter_annulus_radius', 'Pyiga.Props.C07.arcs_partial',
 ]
-THEOREMS = []
-MODULES_FULL = ['Pyiga.Model.Jet', 'Pyiga.Model.Geometry', 'Pyiga.Proofs.Jet', 'Pyiga.Proofs.Geometry', 'Pyiga.Props.C07']
-MODULES = ['Pyiga.Model.Jet', 'Pyiga.Model.Geometry', 'Pyiga.Props.C07']
+MODULES = ['Pyiga.Model.Jet', 'Pyiga.Model.Geometry', 'Pyiga.Proofs.Jet', 'Pyiga.Proofs.Geometry', 'Pyiga.Props.C07']
 
 U = 2.0 ** -52
 
